@@ -222,14 +222,16 @@ def replay_exact(tdgl, a, tmp):
         ev.append({"ev": "op", "op": name, "src": src, "path": path, "q": list(qq), "m": gmat(M), "fixed": [int(x) + 1 for x in fixed]})
 
     # -- the builders (code)
-    op("div", "code", "build", zeros, ops_mod.build_divergence(mesh).toarray())
-    op("grad", "code", "build", zeros, ops_mod.build_gradient(mesh).toarray())
-    op("lap", "code", "build", zeros, ops_mod.build_laplacian(mesh)[0].toarray())
-    op("neumann", "code", "build", zeros, ops_mod.build_neumann_boundary_laplacian(mesh).toarray())
+    full = a.get("profile", "full") == "full"
+    if full:
+        op("div", "code", "build", zeros, ops_mod.build_divergence(mesh).toarray())
+        op("grad", "code", "build", zeros, ops_mod.build_gradient(mesh).toarray())
+        op("lap", "code", "build", zeros, ops_mod.build_laplacian(mesh)[0].toarray())
+        op("neumann", "code", "build", zeros, ops_mod.build_neumann_boundary_laplacian(mesh).toarray())
     op("covgrad", "code", "build", q, ops_mod.build_gradient(mesh, link_exponents=A).toarray())
     op("covlap", "code", "build", q, ops_mod.build_laplacian(mesh, link_exponents=A)[0].toarray())
     # -- what MeshOperators.build_operators() assembles, for every documented sparse_solver option
-    for sv, (aD, aG, aL, aB, _) in assembled_operators(tdgl, mesh).items():
+    for sv, (aD, aG, aL, aB, _) in (assembled_operators(tdgl, mesh).items() if full else ()):
         op("div", "code", "asm:" + sv, zeros, aD)
         op("grad", "code", "asm:" + sv, zeros, aG)
         op("lap", "code", "asm:" + sv, zeros, aL)
@@ -244,7 +246,7 @@ def replay_exact(tdgl, a, tmp):
     # -- MeshOperators of a device with terminals: some boundary sites are "fixed"; psi pinned there (terminal_psi a number:
     #    fix_psi=True) or not (terminal_psi=None: fix_psi=False); first build and refresh in place
     fixed = sorted(set(int(x) for x in np.array(m["edges"])[m["bidx"][0] - 1] - 1))
-    for flag, tag in ((True, "pin"), (False, "nopin")):
+    for flag, tag in (((True, "pin"), (False, "nopin")) if full else ()):
         mp = ops_mod.MeshOperators(mesh, SparseSolver.SUPERLU, fixed_sites=np.array(fixed, dtype=np.int64), fix_psi=flag)
         mp.set_link_exponents(A)
         op("covgrad", "code", tag + ":build", q, mp.psi_gradient.toarray(), fixed)
@@ -254,19 +256,21 @@ def replay_exact(tdgl, a, tmp):
         op("covgrad", "code", tag + ":refresh", q, mp.psi_gradient.toarray(), fixed)
         op("covlap", "code", tag + ":refresh", q, mp.psi_laplacian.toarray(), fixed)
     # -- the same mesh after a round trip through HDF5 (Mesh.to_hdf5 / Mesh.from_hdf5)
-    rmesh = restored(mesh)
-    op("div", "code", "restored", zeros, ops_mod.build_divergence(rmesh).toarray())
-    op("grad", "code", "restored", zeros, ops_mod.build_gradient(rmesh).toarray())
-    op("lap", "code", "restored", zeros, ops_mod.build_laplacian(rmesh)[0].toarray())
-    op("neumann", "code", "restored", zeros, ops_mod.build_neumann_boundary_laplacian(rmesh).toarray())
-    op("covgrad", "code", "restored", q, ops_mod.build_gradient(rmesh, link_exponents=A).toarray())
-    op("covlap", "code", "restored", q, ops_mod.build_laplacian(rmesh, link_exponents=A)[0].toarray())
+    rmesh = restored(mesh) if full else None
+    if full:
+      op("div", "code", "restored", zeros, ops_mod.build_divergence(rmesh).toarray())
+      op("grad", "code", "restored", zeros, ops_mod.build_gradient(rmesh).toarray())
+      op("lap", "code", "restored", zeros, ops_mod.build_laplacian(rmesh)[0].toarray())
+      op("neumann", "code", "restored", zeros, ops_mod.build_neumann_boundary_laplacian(rmesh).toarray())
+      op("covgrad", "code", "restored", q, ops_mod.build_gradient(rmesh, link_exponents=A).toarray())
+      op("covlap", "code", "restored", q, ops_mod.build_laplacian(rmesh, link_exponents=A)[0].toarray())
     # -- the reference formulas (refops), validated by TLC on the same instance
     theta = refops.theta_of(A, arr["directions"])
-    op("div", "ref", "formula", zeros, refops.divergence(n, arr["edges"], arr["dual"], arr["area"]))
-    op("grad", "ref", "formula", zeros, refops.gradient(n, arr["edges"], arr["length"]))
-    op("lap", "ref", "formula", zeros, refops.laplacian(n, arr["edges"], arr["dual"], arr["length"], arr["area"]))
-    op("neumann", "ref", "formula", zeros, refops.neumann(n, arr["edges"], arr["bidx"], arr["length"], arr["area"]))
+    if full:
+        op("div", "ref", "formula", zeros, refops.divergence(n, arr["edges"], arr["dual"], arr["area"]))
+        op("grad", "ref", "formula", zeros, refops.gradient(n, arr["edges"], arr["length"]))
+        op("lap", "ref", "formula", zeros, refops.laplacian(n, arr["edges"], arr["dual"], arr["length"], arr["area"]))
+        op("neumann", "ref", "formula", zeros, refops.neumann(n, arr["edges"], arr["bidx"], arr["length"], arr["area"]))
     op("covgrad", "ref", "formula", q, refops.gradient(n, arr["edges"], arr["length"], theta))
     op("covlap", "ref", "formula", q, refops.laplacian(n, arr["edges"], arr["dual"], arr["length"], arr["area"], theta))
     # -- supercurrent
@@ -290,7 +294,7 @@ def replay_exact(tdgl, a, tmp):
         psi2 = phase * psi
         ev.append({"ev": "gjs", "n": k + 1, "q": q2, "psi": gvec(psi2), "v": gvec(mo.get_supercurrent(psi2))})
     # -- geometric instances: the geometry the real code computes from the integer coordinates
-    if a.get("geo"):
+    if a.get("geo") and full:
         gm = Mesh.from_triangulation(np.array(m["pos"], dtype=float), np.array(m["tris"], dtype=np.int64) - 1)
         gem = gm.edge_mesh
         where = {tuple(sorted(map(int, e))): k for k, e in enumerate(gem.edges)}
@@ -303,7 +307,7 @@ def replay_exact(tdgl, a, tmp):
         idx = [where[tuple(sorted((i - 1, j - 1)))] for i, j in m["edges"]]
         ev.append({"ev": "geom", "src": "ref", "len": [qint(fp["length"][k]) for k in idx],
                    "dual": [qint(fp["dual"][k]) for k in idx], "area": [qint(x) for x in fp["area"]]})
-    return {"kind": "exact", "mi": a["mi"], "pat": a["pat"], "geo": bool(a.get("geo")), "heavy": bool(a.get("heavy")),
+    return {"kind": "exact", "profile": a.get("profile", "full"), "mi": a["mi"], "pat": a["pat"], "geo": bool(a.get("geo")), "heavy": bool(a.get("heavy")),
             "comps": 0, "mesh": m, "ev": ev, "label": a.get("label", "")}
 
 
@@ -668,7 +672,8 @@ def float_trace(tdgl, a, tmp):
 
 
 def strip(t):
-    return dict({k: t[k] for k in ("kind", "mi", "pat", "geo", "heavy", "comps", "mesh", "ev")}, reflex=bool(t.get("reflex", False)))
+    return dict({k: t[k] for k in ("kind", "mi", "pat", "geo", "heavy", "comps", "mesh", "ev")}, reflex=bool(t.get("reflex", False)),
+                profile=t.get("profile", "full"))
 
 
 def validate(ctx, traces, what, invariants, max_report=4):
@@ -886,7 +891,7 @@ OBS = ["abs_psi", "supercurrent", "normal_current", "mu_diff"]
 def _device(tdgl, a):
     from . import devices
 
-    dev = devices.make(tdgl, a.get("dev", "bar"), mel=a.get("mel", 0.8))
+    dev = devices.make(tdgl, a.get("dev", "bar"), mel=a.get("mel", 0.8), xi=a.get("xi", 1.0))
     return copy.deepcopy(dev)        # the cached device must not be modified (translate in place)
 
 
@@ -953,6 +958,17 @@ def _solve_frames(tdgl, *args, **kw):
     return _frames(sol.path), None
 
 
+PHI0 = 6.62607015e-34 / (2 * 1.602176634e-19)     # Wb, h / 2e from the exact SI values of h and e: typed in, not taken from the package
+
+
+def physical_gauge_phase(sites_dimensionless, xi_um, c_mT_um):
+    """chi_i = (2 pi / Phi_0) c . r_i from first principles: c in T m from the harness's own numbers (mT um), r_i in metres from
+    the REQUESTED coherence length and length unit (um); nothing is read from device.A0 / solver.A_scale."""
+    r = np.asarray(sites_dimensionless, dtype=float) * float(xi_um) * 1e-6
+    c = np.asarray(c_mT_um, dtype=float) * 1e-3 * 1e-6
+    return (2 * np.pi / PHI0) * (r @ c)
+
+
 def gauge_run_pair(tdgl, a, tmp):
     """Two REAL runs that differ by a gauge transformation; returns the quantised gauge-invariant observables of
     both, frame by frame.  mode "translate": the meshed device and its rigid translate under a uniform field
@@ -1003,7 +1019,22 @@ def gauge_run_pair(tdgl, a, tmp):
             cdim = dA.mean(axis=0)
             if np.abs(dA - cdim).max() > 1e-12 * max(1.0, np.abs(cdim).max()):
                 raise core.MachineryFailure("the shifted potential is not a constant shift on the edges")
-            chi = dev.mesh.sites @ cdim
+            # the gauge function of the PHYSICAL transformation A -> A + c, psi -> psi exp(i (2 pi / Phi_0) c.r)
+            xi = float(a.get("xi", 1.0))
+            chi = physical_gauge_phase(dev.mesh.sites, xi, c)
+            cphys = (2 * np.pi / PHI0) * np.asarray(c, dtype=float) * 1e-9 * xi * 1e-6      # expected dimensionless shift per xi
+            # operator level, on the solver's own operators (link variables as the solver scaled them): the supercurrent of a
+            # state in the gauge A must be that of the transformed state in the gauge A + c
+            rng = np.random.default_rng(a.get("seed", 0) + 3)
+            nn = len(dev.mesh.sites)
+            op_ev = []
+            for nm, psi0 in (("psi=1", np.ones(nn, dtype=complex)), ("random psi", rng.normal(size=nn) + 1j * rng.normal(size=nn))):
+                for run, sol, ps in (("A", p1, psi0), ("B", p2, psi0 * np.exp(1j * chi))):
+                    op_ev.append({"run": run, "key": f"operator level/supercurrent of {nm}",
+                                  "q": [int(round(float(x) * 1e6)) for x in np.asarray(sol.operators.get_supercurrent(ps))]})
+            # the coupling constant itself: the solver's dimensionless shift against (2 pi / Phi_0) c xi
+            op_ev.append({"run": "A", "key": "dimensionless shift (2 pi/Phi_0) c xi", "q": [int(round(float(x) * 1e6)) for x in cphys]})
+            op_ev.append({"run": "B", "key": "dimensionless shift (2 pi/Phi_0) c xi", "q": [int(round(float(x) * 1e6)) for x in cdim]})
             # warm-up in the first gauge, then continue once in each gauge from gauge-equivalent states
             s0 = tdgl.solve(dev, _options(tdgl, a, os.path.join(work, "w.h5"), N0 * dt - dt / 2), applied_vector_potential=A1, **kw)
             seedA = tdgl.Solution.from_hdf5(s0.path)
@@ -1015,7 +1046,8 @@ def gauge_run_pair(tdgl, a, tmp):
                                                    applied_vector_potential=A1, seed_solution=seedA, **kw)
             runs["B"], raised["B"] = _solve_frames(tdgl, dev, _options(tdgl, a, os.path.join(work, "b.h5"), N * dt - dt / 2),
                                                    applied_vector_potential=A2, seed_solution=seedB, **kw)
-            info = {"sites": len(dev.mesh.sites), "shift_dimensionless": [float(x) for x in cdim],
+            info = {"sites": len(dev.mesh.sites), "shift_dimensionless": [float(x) for x in cdim], "xi": xi,
+                    "shift_dimensionless_from_SI_constants": [float(x) for x in cphys],
                     "max_abs_chi": float(np.abs(chi).max())}
             # psi itself must differ between the gauges by exp(i chi) up to a global phase: recorded as an extra
             # gauge-covariant observable |psi_B conj(psi_A exp(i chi))| vs |psi_A|^2 is implied by abs_psi; the
@@ -1033,7 +1065,7 @@ def gauge_run_pair(tdgl, a, tmp):
         scale = {k: max(floor[k], max(float(np.abs(fr[k]).max()) for r in runs.values() for fr in r)) for k in obs}
         if a["mode"] != "translate":
             scale["abs_psi"] = 1.0
-        ev, ev_exact, worst = list(outcome), [], {k: 0.0 for k in obs}
+        ev, ev_exact, worst = list(outcome) + (op_ev if a["mode"] != "translate" else []), [], {k: 0.0 for k in obs}
         for name in ("A", "B"):
             for fr in runs[name]:
                 for k in obs:
